@@ -1,7 +1,404 @@
 package checks
 
-import "verif/fw"
+import (
+	"context"
+	"errors"
+	"fmt"
+	"io"
+	"strings"
+	"time"
 
-func c19APIcases(tier string) []fw.Case { return nil }
+	mqtt "github.com/at-wat/mqtt-go"
+	"verif/fw"
+	"verif/memnet"
+	"verif/mqttref"
+	"verif/scen"
+)
 
-func c19APIRun(c fw.Case, env *fw.Env) fw.Result { return fw.Result{} }
+type c19API struct {
+	Mode  string `json:"mode"`  // "api"
+	Kind  string `json:"kind"`  // pub1 pub2 pub2comp sub unsub
+	Cause string `json:"cause"` // write-closedpipe write-custom write-wrapeof peerclose cancel deadline
+	Rep   int    `json:"rep"`
+}
+
+var c19Kinds = []string{"pub1", "pub2", "pub2comp", "sub", "unsub"}
+var c19Causes = []string{"write-closedpipe", "write-custom", "write-wrapeof", "peerclose", "cancel", "deadline"}
+
+func c19APIcases(tier string) []fw.Case {
+	var cs []fw.Case
+	for _, k := range c19Kinds {
+		for _, ca := range c19Causes {
+			cs = append(cs, fw.Mk("api/"+k+"/"+ca, c19API{Mode: "api", Kind: k, Cause: ca, Rep: scale(tier, 2, 40)}))
+		}
+	}
+	cs = append(cs, fw.Mk("api/misc", c19API{Mode: "api", Kind: "misc", Rep: scale(tier, 2, 40)}))
+	return cs
+}
+
+type customErr struct{ s string }
+
+func (e *customErr) Error() string { return e.s }
+
+var errCustomWrite = &customErr{"custom transport failure"}
+
+func c19APIRun(c fw.Case, env *fw.Env) fw.Result {
+	var p c19API
+	fw.Params(c, &p)
+	r := fw.Result{Counters: map[string]int{}}
+	for i := 0; i < p.Rep; i++ {
+		var sig, det string
+		var trc []string
+		if p.Kind == "misc" {
+			sig, det = c19Misc()
+		} else {
+			sig, det, trc = c19Interrupt(p.Kind, p.Cause, i)
+		}
+		r.Evals++
+		if sig == "inconclusive" {
+			r.Counters["inconclusive_runs"]++
+			continue
+		}
+		if sig != "" {
+			r.Verdict = fw.Violated
+			r.Sig = sig
+			r.Detail = det
+			r.Trace = trc
+			return r
+		}
+	}
+	r.NT = append(r.NT, "api:"+p.Kind+"/"+p.Cause)
+	r.Sample = map[string]interface{}{"mode": "api", "kind": p.Kind, "cause": p.Cause}
+	return r
+}
+
+func notIn(err error, others ...error) string {
+	for _, o := range others {
+		if errors.Is(err, o) {
+			return fmt.Sprintf("errors.Is reports %v which is not the cause", o)
+		}
+	}
+	return ""
+}
+
+func c19Interrupt(kind, cause string, rep int) (sig, detail string, trace []string) {
+	tr := memnet.NewTrace()
+	failNext := false
+	var werr error
+	step := 0 // which request packet to fail at
+	peer := &scen.Script{Tr: tr, AutoConnack: true}
+	peer.OnPkt = func(cn *memnet.Conn, p *mqttref.Packet, raw []byte) bool {
+		if p == nil {
+			return false
+		}
+		if cn.ID == 1 {
+			if kind == "pub2comp" && p.Type == mqttref.PUBLISH {
+				cn.SendLocked(mqttref.EncAck(mqttref.PUBREC, p.ID), "")
+				return false
+			}
+			want := map[string]int{"pub1": mqttref.PUBLISH, "pub2": mqttref.PUBLISH, "pub2comp": mqttref.PUBREL, "sub": mqttref.SUBSCRIBE, "unsub": mqttref.UNSUBSCRIBE}[kind]
+			if p.Type == want && failNext {
+				step++
+				return true // the Write carrying the request fails
+			}
+			return false
+		}
+		// fresh client: behave like a broker
+		if a := scen.AckFor(p); a != nil {
+			cn.SendLocked(a, "")
+		}
+		return false
+	}
+	cli, conn := scen.NewBase(tr, peer)
+	switch cause {
+	case "write-closedpipe":
+		werr, failNext = io.ErrClosedPipe, true
+	case "write-custom":
+		werr, failNext = errCustomWrite, true
+	case "write-wrapeof":
+		werr, failNext = fmt.Errorf("tls: broken record: %w", io.EOF), true
+	}
+	conn.WriteErr = werr
+	if err := scen.ConnectBase(cli); err != nil {
+		return "inconclusive", err.Error(), nil
+	}
+	fail := func(s, f string, a ...interface{}) (string, string, []string) {
+		cli.Close()
+		return s + ":" + kind + "/" + cause, fmt.Sprintf("%s/%s: ", kind, cause) + fmt.Sprintf(f, a...), tr.Dump(50)
+	}
+	var ctx context.Context
+	var cancel context.CancelFunc
+	switch cause {
+	case "deadline":
+		ctx, cancel = context.WithTimeout(context.Background(), 3*time.Millisecond)
+	default:
+		ctx, cancel = context.WithCancel(context.Background())
+	}
+	defer cancel()
+	msg := &mqtt.Message{Topic: "c19/t", Payload: []byte(fmt.Sprintf("pl%d", rep)), Retain: rep%2 == 0}
+	subs := []mqtt.Subscription{{Topic: "c19/a", QoS: mqtt.QoS1}, {Topic: "c19/b/#", QoS: mqtt.QoS2}}
+	done := make(chan error, 1)
+	go func() {
+		var err error
+		switch kind {
+		case "pub1":
+			msg.QoS = mqtt.QoS1
+			err = cli.Publish(ctx, msg)
+		case "pub2", "pub2comp":
+			msg.QoS = mqtt.QoS2
+			err = cli.Publish(ctx, msg)
+		case "sub":
+			_, err = cli.Subscribe(ctx, subs...)
+		case "unsub":
+			err = cli.Unsubscribe(ctx, "c19/a", "c19/b/#")
+		}
+		done <- err
+	}()
+	want := map[string]int{"pub1": mqttref.PUBLISH, "pub2": mqttref.PUBLISH, "pub2comp": mqttref.PUBREL, "sub": mqttref.SUBSCRIBE, "unsub": mqttref.UNSUBSCRIBE}[kind]
+	if !failNext {
+		if _, ok := peer.WaitIn(scen.Watchdog, 1, func(q *mqttref.Packet) bool { return q.Type == want }); !ok {
+			return "inconclusive", "request not seen", nil
+		}
+		switch cause {
+		case "peerclose":
+			conn.PeerClose("cause")
+		case "cancel":
+			cancel()
+		}
+	}
+	var err error
+	select {
+	case err = <-done:
+	case <-time.After(scen.Watchdog):
+		return "inconclusive", "call did not return (C11's concern)", nil
+	}
+	if err == nil {
+		return fail("nil-on-interrupt", "interrupted request returned nil")
+	}
+	// the cause is inspectable
+	others := []error{mqtt.ErrInvalidPacket, mqtt.ErrInvalidPacketLength, mqtt.ErrPayloadLenExceeded, mqtt.ErrInvalidQoS, mqtt.ErrNotConnected, mqtt.ErrInvalidSubAck, mqtt.ErrPingTimeout, mqtt.ErrClosedClient, io.ErrUnexpectedEOF}
+	var wantCause error
+	switch cause {
+	case "write-closedpipe":
+		wantCause = io.ErrClosedPipe
+		others = append(others, mqtt.ErrClosedTransport, context.Canceled, context.DeadlineExceeded, io.EOF)
+	case "write-custom":
+		wantCause = errCustomWrite
+		var ce *customErr
+		if !errors.As(err, &ce) || ce != errCustomWrite {
+			return fail("cause-not-inspectable", "errors.As does not find the transport's error in %v", err)
+		}
+		others = append(others, mqtt.ErrClosedTransport, context.Canceled, io.EOF, io.ErrClosedPipe)
+	case "write-wrapeof":
+		wantCause = io.EOF
+		if err == io.EOF {
+			return fail("cause-collapsed", "a transport error that merely wraps io.EOF was collapsed to bare io.EOF (cause text and retry handle lost)")
+		}
+		if !strings.Contains(err.Error(), "broken record") {
+			return fail("cause-collapsed", "the transport's error text is gone: %v", err)
+		}
+		others = append(others, mqtt.ErrClosedTransport, context.Canceled, io.ErrClosedPipe)
+	case "peerclose":
+		wantCause = mqtt.ErrClosedTransport
+		others = append(others, context.Canceled, context.DeadlineExceeded, io.ErrClosedPipe)
+	case "cancel":
+		wantCause = context.Canceled
+		others = append(others, mqtt.ErrClosedTransport, context.DeadlineExceeded, io.EOF)
+	case "deadline":
+		wantCause = context.DeadlineExceeded
+		others = append(others, mqtt.ErrClosedTransport, context.Canceled, io.EOF)
+	}
+	if !errors.Is(err, wantCause) {
+		return fail("cause-not-inspectable", "errors.Is(%v, %v) is false", err, wantCause)
+	}
+	if s := notIn(err, others...); s != "" {
+		return fail("false-cause", "%s (err=%v)", s, err)
+	}
+	// retry handle
+	rh, ok := err.(mqtt.ErrorWithRetry)
+	if !ok {
+		return fail("no-retry-handle", "%v (%T) does not implement ErrorWithRetry", err, err)
+	}
+	var firstPub *mqttref.Packet
+	for _, e := range tr.Snapshot() {
+		if e.Kind == memnet.KWrite && e.Pkt != nil && e.Pkt.Type == mqttref.PUBLISH && firstPub == nil {
+			firstPub = e.Pkt
+		}
+	}
+	cli2, conn2 := scen.NewBase(tr, peer)
+	if err := scen.ConnectBase(cli2); err != nil {
+		return "inconclusive", err.Error(), nil
+	}
+	defer cli2.Close()
+	rctx, rcancel := context.WithTimeout(context.Background(), scen.Watchdog)
+	defer rcancel()
+	if rerr := rh.Retry(rctx, cli2); rerr != nil {
+		if scen.IsDeadline(rerr) {
+			// nothing reached the client it was given?
+			n := 0
+			for _, e := range tr.Snapshot() {
+				if e.Kind == memnet.KWrite && e.Conn == conn2.ID && e.Pkt != nil && e.Pkt.Type != mqttref.CONNECT {
+					n++
+				}
+			}
+			if n == 0 {
+				return fail("retry-not-on-given-client", "Retry(ctx, fresh client) wrote nothing on the client it was given and ended with %v", rerr)
+			}
+		}
+		return fail("retry-failed", "Retry on a fresh, acknowledging client returned %v", rerr)
+	}
+	// what Retry produced on connection 2 must be the same request
+	var got []*mqttref.Packet
+	for _, e := range tr.Snapshot() {
+		if e.Kind == memnet.KWrite && e.Conn == conn2.ID && e.Pkt != nil && e.Pkt.Type != mqttref.CONNECT {
+			if e.Mal != "" {
+				return fail("retry-malformed", "Retry wrote %v", e)
+			}
+			got = append(got, e.Pkt)
+		}
+	}
+	desc := func() string {
+		var s []string
+		for _, g := range got {
+			s = append(s, g.String())
+		}
+		return strings.Join(s, ", ")
+	}
+	switch kind {
+	case "pub1", "pub2":
+		if len(got) == 0 || got[0].Type != mqttref.PUBLISH {
+			return fail("retry-different-request", "Retry wrote %s, want the PUBLISH again", desc())
+		}
+		g := got[0]
+		if g.Topic != msg.Topic || string(g.Payload) != string(msg.Payload) || g.QoS != byte(msg.QoS) || g.Retain != msg.Retain || !g.Dup || (firstPub != nil && g.ID != firstPub.ID) || g.ID == 0 {
+			return fail("retry-different-request", "first transmission %v, Retry wrote %v (want same id/content, DUP=1)", firstPub, g)
+		}
+		if kind == "pub2" && (len(got) != 2 || got[1].Type != mqttref.PUBREL || got[1].ID != g.ID) {
+			return fail("retry-different-request", "QoS 2 retry wrote %s, want PUBLISH(dup) then PUBREL with the same id", desc())
+		}
+		if kind == "pub1" && len(got) != 1 {
+			return fail("retry-different-request", "QoS 1 retry wrote %s", desc())
+		}
+	case "pub2comp":
+		if len(got) != 1 || got[0].Type != mqttref.PUBREL || firstPub == nil || got[0].ID != firstPub.ID {
+			return fail("retry-different-request", "after PUBREC the retry handle wrote %s on the fresh client, want only PUBREL(%v)", desc(), firstPub)
+		}
+	case "sub":
+		if len(got) != 1 || got[0].Type != mqttref.SUBSCRIBE || len(got[0].Subs) != 2 || got[0].Subs[0] != (mqttref.Sub{Filter: "c19/a", QoS: 1}) || got[0].Subs[1] != (mqttref.Sub{Filter: "c19/b/#", QoS: 2}) {
+			return fail("retry-different-request", "Retry wrote %s, want SUBSCRIBE [c19/a@1 c19/b/#@2]", desc())
+		}
+	case "unsub":
+		if len(got) != 1 || got[0].Type != mqttref.UNSUBSCRIBE || strings.Join(got[0].Filters, ",") != "c19/a,c19/b/#" {
+			return fail("retry-different-request", "Retry wrote %s, want UNSUBSCRIBE [c19/a c19/b/#]", desc())
+		}
+	}
+	cli.Close()
+	return "", "", nil
+}
+
+// c19Misc: sentinels returned by the API for non-interrupt failures.
+func c19Misc() (string, string) {
+	tr := memnet.NewTrace()
+	peer := &scen.Script{Tr: tr, AutoConnack: true, AutoAck: true}
+	cli, conn := scen.NewBase(tr, peer)
+	ctx, cancel := context.WithTimeout(context.Background(), scen.Watchdog)
+	defer cancel()
+	chk := func(what string, err, want error, not ...error) (string, string) {
+		if !errors.Is(err, want) {
+			return "cause-not-inspectable:" + what, fmt.Sprintf("%s: errors.Is(%v, %v) is false", what, err, want)
+		}
+		if s := notIn(err, not...); s != "" {
+			return "false-cause:" + what, fmt.Sprintf("%s: %s (err=%v)", what, s, err)
+		}
+		return "", ""
+	}
+	// before Connect
+	if s, d := chk("publish-before-connect", cli.Publish(ctx, &mqtt.Message{Topic: "x", QoS: mqtt.QoS1}), mqtt.ErrNotConnected, mqtt.ErrClosedTransport, mqtt.ErrInvalidQoS); s != "" {
+		return s, d
+	}
+	_, e := cli.Subscribe(ctx, mqtt.Subscription{Topic: "x"})
+	if s, d := chk("subscribe-before-connect", e, mqtt.ErrNotConnected, mqtt.ErrInvalidSubAck); s != "" {
+		return s, d
+	}
+	if s, d := chk("ping-before-connect", cli.Ping(ctx), mqtt.ErrNotConnected, mqtt.ErrPingTimeout); s != "" {
+		return s, d
+	}
+	if err := scen.ConnectBase(cli); err != nil {
+		return "inconclusive", err.Error()
+	}
+	cli.MaxPayloadLen = 4
+	if s, d := chk("invalid-qos", cli.Publish(ctx, &mqtt.Message{Topic: "x", QoS: 3}), mqtt.ErrInvalidQoS, mqtt.ErrPayloadLenExceeded, mqtt.ErrNotConnected); s != "" {
+		return s, d
+	}
+	if s, d := chk("payload-exceeded", cli.Publish(ctx, &mqtt.Message{Topic: "x", Payload: make([]byte, 10)}), mqtt.ErrPayloadLenExceeded, mqtt.ErrInvalidQoS); s != "" {
+		return s, d
+	}
+	rc := &mqtt.RetryClient{}
+	rc.SetClient(ctx, cli)
+	if s, d := chk("retryclient-validation", rc.Publish(ctx, &mqtt.Message{Topic: "x", QoS: 5}), mqtt.ErrInvalidQoS, mqtt.ErrPayloadLenExceeded); s != "" {
+		return s, d
+	}
+	// wrong SUBACK count
+	peer.AutoAck = false
+	peer.OnPkt = func(cn *memnet.Conn, p *mqttref.Packet, raw []byte) bool {
+		if p != nil && p.Type == mqttref.SUBSCRIBE {
+			cn.SendLocked(mqttref.EncSubAck(p.ID, []byte{0, 1, 2}), "")
+		}
+		return false
+	}
+	_, e = cli.Subscribe(ctx, mqtt.Subscription{Topic: "x"})
+	if s, d := chk("suback-count", e, mqtt.ErrInvalidSubAck, mqtt.ErrInvalidPacket, mqtt.ErrNotConnected); s != "" {
+		return s, d
+	}
+	select {
+	case <-cli.Done():
+	case <-time.After(scen.Watchdog):
+		return "inconclusive", "Done not closed"
+	}
+	// protocol errors surface through Err()
+	for _, tc := range []struct {
+		raw  []byte
+		want error
+	}{
+		{[]byte{0x36, 0x03, 0x00, 0x01, 'x'}, mqtt.ErrInvalidPacket},
+		{[]byte{0x40, 0x01, 0x00}, mqtt.ErrInvalidPacketLength},
+		{[]byte{0xF0, 0x00}, mqtt.ErrInvalidPacket},
+		{[]byte{0x30, 0x03, 0x00, 0x05, 'x'}, mqtt.ErrInvalidPacketLength},
+		{[]byte{0x90, 0x01, 0x00}, mqtt.ErrInvalidPacketLength},
+		{[]byte{0x30, 0x84, 0x80, 0x80, 0x80, 0x01}, mqtt.ErrInvalidPacketLength},
+	} {
+		tr2 := memnet.NewTrace()
+		p2 := &scen.Script{Tr: tr2, AutoConnack: true}
+		c2, cn2 := scen.NewBase(tr2, p2)
+		if err := scen.ConnectBase(c2); err != nil {
+			return "inconclusive", err.Error()
+		}
+		cn2.Send(tc.raw, "malformed")
+		select {
+		case <-c2.Done():
+		case <-time.After(scen.Watchdog):
+			return "inconclusive", "Done not closed after malformed packet"
+		}
+		if s, d := chk(fmt.Sprintf("malformed-%x", tc.raw), c2.Err(), tc.want, mqtt.ErrNotConnected, mqtt.ErrClosedTransport, io.EOF); s != "" {
+			return s, d
+		}
+	}
+	// peer close: io.EOF passed through unwrapped
+	tr3 := memnet.NewTrace()
+	p3 := &scen.Script{Tr: tr3, AutoConnack: true}
+	c3, cn3 := scen.NewBase(tr3, p3)
+	if err := scen.ConnectBase(c3); err != nil {
+		return "inconclusive", err.Error()
+	}
+	cn3.PeerClose("eof")
+	select {
+	case <-c3.Done():
+	case <-time.After(scen.Watchdog):
+		return "inconclusive", "Done not closed after peer close"
+	}
+	if c3.Err() != io.EOF {
+		return "eof-wrapped", fmt.Sprintf("after a clean peer close Err() = %#v, want io.EOF itself", c3.Err())
+	}
+	_ = conn
+	return "", ""
+}
